@@ -225,8 +225,11 @@ PROPS = {
                     'is unaffected (relational obligation); init_wrapper takes or creates the store of ITS instance, resets exactly the listed '
                     'properties there and writes nothing else before calling the class __init__; apply copies headers by value.',
         level_text='Proof of instance ownership of the thread-local accessors and of the wrapped initialiser for all instances, stores and '
-                   'property names; that request/response objects of different applications do not share other state (e.g. a class-level '
-                   'HeaderDict) is decided by the bounded arrangements only.',
+                   'property names, and of the construction / copy glue (Ombott.__init__: own configuration, router, request, response; '
+                   'Request.copy; HeaderDict.copy and BaseResponse.copy: nothing mutable shared; _handle binds the environ to its own '
+                   'application); site obligations: no class-level mutable is mutated through an instance, no mutable default argument is '
+                   'mutated, no process-lifetime memoisation, no module-level mutable escapes into a callee. That no other state is shared is '
+                   'decided by the bounded arrangements.',
         level_note='Heap model H[object, name]; threading.local() allocates a fresh object; store_name is not a listed property. '
                    'Sharing through objects outside ts_props (class attributes, module globals): bounded.',
         trusted_base=['heap model of getattr/setattr/delattr', 'threading.local semantics'],
